@@ -95,9 +95,9 @@ def explore(chk: Check, owner: str, cross=False):
     jobs = []
     paths = g.tree_paths() if g else []
     budget = (700 if quick else 6000) if cross else (1500 if quick else 12000)
-    chk.exhaustive = len(paths) <= budget
-    if len(paths) > budget:
-        paths = rnd.sample(paths, budget)
+    # spanning-tree paths plus the same events after other histories (non-tree edges); a budgeted sample is stratified by the kinds
+    # (operation, outcome) of the last three transitions, so a rare succession (rejected call -> update) is always in it
+    paths, chk.exhaustive = tlc.choose_paths(g, paths, budget, rnd) if g else ([], False)
     for i, p in enumerate(paths):
         jobs.append(("path", p, "all" if i % 2 == 0 else "events"))
     # deeper behaviours by simulation
